@@ -32,6 +32,9 @@ EXTRA = [
     # Sin/Cos/Exp of the constant 0, conditioned after another assignment (the typed value set must keep the default's values)
     "c = 0\ny = 0\ns = 0\nwhile true:\n    c = Bernoulli(1/2)\n    y = 3\n    if c == 1:\n        y = Cos(0)\n    end\n    s = y**2\nend\n",
     "c = 1\ny = 2\ns = 0\nwhile c == 1:\n    c = Bernoulli(1/2)\n    y = 4\n    if c == 0:\n        y = Exp(0)\n    end\n    s = s + y**2\nend\n",
+    # a conditioned constant assignment after a copy that lags one pass behind, read by variables assigned EARLIER in the body
+    "w = 0\nx = 0\ns = 0\ny = 0\nc = 0\nwhile true:\n    y = s**2\n    s = 4*x**2\n    c = Bernoulli(1/2)\n    x = w\n    if c == 1:\n        x = 0\n    end\n    w = Bernoulli(1/2)\nend\n",
+    "w = 1\nx = 1\ns = 0\nc = 0\nwhile true:\n    s = x + 2*s - s*s\n    c = Bernoulli(1/2)\n    x = w\n    if c == 0:\n        x = 1\n    end\n    w = DiscreteUniform(1, 3)\nend\n",
     # a variable assigned more than once in the initial block (the last assignment gives the initial values)
     "x = 1\nx = 7\ny = 0\nwhile true:\n    y = Bernoulli(1/2)\n    x = x*y\nend\n",
     "c = Bernoulli(1/2)\nx = c\nx = 3*x + 2\ny = 0\nwhile true:\n    y = Bernoulli(1/2)\n    x = x*y + y\nend\n",
